@@ -390,5 +390,100 @@ fn main() {
             }
         }
     }
+    // ---- EPS boundary of the variance guards (notes/mutation-M1.md) ------------------------------------------------
+    // `if var > EPS { .. } else { 0. }` (std, var) and `if var <= EPS { 0. } else { .. }` (skew, kurt), null-aware and plain
+    // family: series whose population variance - computed from the running sums in the closures' own operation order - is
+    // BIT-EQUAL to EPS = 1e-14 at the last position, so the floor applies there and a guard of the other strictness
+    // (features.rs:339 `>` -> `>=`, seen only by the static tie before) returns var * n / (n - 1) ~ 1.3e-14 instead of 0.
+    // Zero-sum families (nothing cancels): [x, -x, 0, .., 0] and [x, -x, y, -y]; x by a deterministic scan of the doubles
+    // around the real solution.  The variance is compared EXACTLY (the float model mirrors the operation order bit for bit;
+    // the usual tolerance relative to 4e4 would hide 1e-14), the standard deviation within 1e-9 absolute (floor 0 against
+    // 1.2e-7), skew / kurt with their usual tolerance (0 against an O(1) kurtosis).
+    {
+        const EPS: f64 = 1e-14;
+        fn var_like_code(v: &[f64]) -> f64 {
+            let (mut s, mut s2) = (0.0f64, 0.0f64);
+            for x in v {
+                s += *x;
+                s2 += *x * *x;
+            }
+            let n = v.len() as f64;
+            let mean = s / n;
+            let mut var = s2 / n;
+            var -= mean.powi(2);
+            var
+        }
+        fn scan(center: f64, build: &dyn Fn(f64) -> Vec<f64>) -> Option<Vec<f64>> {
+            let c = center.to_bits();
+            for k in 0..8192u64 {
+                for bits in [c + k, c - k] {
+                    let v = build(f64::from_bits(bits));
+                    if var_like_code(&v) == EPS {
+                        return Some(v);
+                    }
+                }
+            }
+            None
+        }
+        let mut fams: Vec<(String, Vec<f64>)> = vec![];
+        for n in 4..=12usize {
+            if let Some(v) = scan((n as f64 * EPS / 2.0).sqrt(), &|x| { let mut v = vec![x, -x]; v.resize(n, 0.0); v }) {
+                fams.push((format!("pm0_{}", n), v));
+                break;
+            }
+        }
+        let mut hits4 = 0;
+        for j in 0..16 {
+            let y = 1.0e-7 * (1.0 + j as f64 / 64.0);
+            if let Some(v) = scan((2.0 * EPS - y * y).sqrt(), &|x| vec![x, -x, y, -y]) {
+                fams.push((format!("pm4_{}", j), v));
+                hits4 += 1;
+                if hits4 == 2 { break; }
+            }
+        }
+        assert!(fams.len() >= 2, "no series with a variance bit-equal to EPS found");
+        for (fam, xs) in fams.iter() {
+            let len = xs.len();
+            let xs_coq = coq_list(xs, |x| coq_f64(*x));
+            let xo: Vec<Option<f64>> = xs.iter().map(|x| Some(*x)).collect();
+            let xo_coq = coq_list(&xo, |x| coq_opt(x, |v| coq_f64(*v)));
+            for w in [len, len + 1] {
+                for mp in [None, Some(0usize), Some(2), Some(len)] {
+                    let mp_coq = coq_opt(&mp, |m| coq_nat(*m));
+                    for fi in [4usize, 5, 6, 7] {
+                        let fi_ = fi as i32;
+                        let fname = FNS[fi];
+                        let cmp = match fi { 4 => "float:1e-9", 5 => "exact", _ => "float:1e-7,4e4" };
+                        let tags = |ty: &str, be: &str| format!(
+                            "fn=ts_v{} ty={} be={} len={} wrel={} mp={} nullfrac=0 style=eps_boundary_{} nulls=none",
+                            fname, ty, be, len, if w > len { "gt" } else { "eq" },
+                            match mp { None => "omitted".to_string(), Some(0) => "0".into(), Some(m) if m == w => "w".into(), _ => "mid".into() }, fam);
+                        let desc = |ty: &str, be: &str| format!("fn=ts_v{} ty={} be={} w={} mp={:?} xs={:?} (population variance bit-equal to EPS at the last position)", fname, ty, be, w, mp, xs);
+                        em.case(cmp, &tags("f64", "vec"), &desc("f64", "vec"),
+                            || format!("(run_feat_f {} true {} {} {})", fi, coq_nat(w), mp_coq, xs_coq),
+                            || out_cells(guarded(|| call_valid!(fi_, xs, w, mp, Vec<f64>))));
+                        em.case(cmp, &tags("f64", "vec_to"), &desc("f64", "vec_to"),
+                            || format!("(run_feat_f {} true {} {} {})", fi, coq_nat(w), mp_coq, xs_coq),
+                            || out_cells(guarded(|| call_valid_to!(fi_, xs, w, mp))));
+                        em.case(cmp, &tags("f64", "deque"), &desc("f64", "deque"),
+                            || format!("(run_feat_f {} false {} {} {})", fi, coq_nat(w), mp_coq, xs_coq),
+                            || { let d: VecDeque<f64> = vh::wrapped_deque(xs);
+                                 out_cells(guarded(|| call_valid!(fi_, d, w, mp, Vec<f64>))) });
+                        em.case(cmp, &tags("optf64", "vec"), &desc("optf64", "vec"),
+                            || format!("(run_feat_o {} true {} {} {})", fi, coq_nat(w), mp_coq, xo_coq),
+                            || match guarded(|| call_valid!(fi_, xo, w, mp, Vec<Option<f64>>)) {
+                                Ok(v) => cells_optf64(&v), Err(k) => vec![Cell::Panic(k)] });
+                        em.case(cmp, &tags("f64", "plain"), &desc("f64", "plain"),
+                            || format!("(run_feat_p {} true {} {} {})", fi, coq_nat(w), mp_coq, xs_coq),
+                            || out_cells(guarded(|| call_plain!(fi_, xs, w, mp, Vec<f64>))));
+                        em.case(cmp, &tags("f64", "plain_deque"), &desc("f64", "plain_deque"),
+                            || format!("(run_feat_p {} false {} {} {})", fi, coq_nat(w), mp_coq, xs_coq),
+                            || { let d: VecDeque<f64> = vh::wrapped_deque(xs);
+                                 out_cells(guarded(|| call_plain!(fi_, d, w, mp, Vec<f64>))) });
+                    }
+                }
+            }
+        }
+    }
     em.finish();
 }
